@@ -434,7 +434,7 @@ add("e3_k7_reader_loops", "", overlay="e3",
 add("e3_k9_chunker", "", overlay="e3",
     desc="yaml::chunker::Chunker::next (which does not fit in Kani) from the library crate's MIR, one call from each abstract pre-state over the libyaml event contract: a document is returned only when the next DOCUMENT-START or STREAM-END is seen (deferred by one) and is exactly the chunk cut at its DOCUMENT-END with the kind of its first content event; DOCUMENT-START trims the capture buffer to the event's start offset; a parser error becomes Some(Err(io::Error::new(InvalidData, ..))); None after STREAM-END without consulting the parser; post-state follows the events",
     bounds="12 abstract pre-states (pending document y/n, kind none/scalar/collection, ended y/n) x event sequences <= 3 (thorough: 4) over 8 symbolic event classes", functions=["yaml::chunker::Chunker::next"],
-    props=["C03", "C02", "C09"], thorough_props=["C04", "C12"], timeout=1500, mem_gb=4,
+    props=["C03", "C02", "C09", "C12"], thorough_props=["C04"], timeout=1500, mem_gb=4,
     assumptions=K_ASM[:1] + ["libyaml event contract: event types as in unsafe_libyaml::yaml_event_type_t; ChunkReader::{trim_to_offset,take_to_offset} are checked separately (G1); String::from_utf8(..).unwrap() is uninterpreted (marks inside a multi-byte character are outside the contract)"])
 add("e3_k10_toml_output", "", overlay="e3",
     desc="toml::Output::{transcode_from, transcode_value} (+ ensure_one_use, output_value, inlined) from the library crate's MIR, one call from used = false and from used = true: a second use is refused with MultiDocument before anything is pulled and nothing is written; the used flag is set BEFORE the document is deserialized; a value the TOML type refuses, a non-table root or a render error => Err and no write; a table => exactly one write_all of the rendering, Ok iff it succeeded",
